@@ -65,6 +65,7 @@ pub fn all() -> Vec<CheckDef> {
                 Family { enumerate: None, variant: "", name: "T4-upgrade-racing-cascade", strategy: |_| templates::t4(), cases: |t| t.pick(12_000, 120_000) },
                 Family { enumerate: None, variant: "", name: "T5-install-into-unlinked-node", strategy: |_| templates::t5(), cases: |t| t.pick(12_000, 120_000) },
                 Family { enumerate: None, variant: "", name: "T8-destructor-holding-a-guard", strategy: |_| templates::t8(), cases: |t| t.pick(12_000, 120_000) },
+                Family { enumerate: None, variant: "", name: "T12-several-retired-parents-release-one-child", strategy: |_| templates::t12(), cases: |t| t.pick(6_000, 60_000) },
                 Family { enumerate: None, variant: "", name: "T10-long-disposal-spanning-re-pins", strategy: |_| templates::t10(), cases: |t| t.pick(1_600, 16_000) },
                 Family { enumerate: None, variant: "", name: "T11-upgrade-at-the-recursion-cap", strategy: |_| templates::t11(), cases: |t| t.pick(600, 6_000) },
                 Family { enumerate: None, variant: "", name: "T9-move-into-node-dying-by-cascade", strategy: |_| templates::t9(), cases: |t| t.pick(30_000, 300_000) },
@@ -311,6 +312,7 @@ pub fn all() -> Vec<CheckDef> {
 
                 Family { enumerate: None, variant: "", name: "ebr-free", strategy: |t| ebrworld::free(ebrworld::EW_DEFAULT, 4, t.pick(24, 36), t.pick(10, 17)), cases: |t| t.pick(40_000, 400_000) },
                 Family { enumerate: None, variant: "", name: "E2-nested-guards-reactivated-repeatedly", strategy: |_| ebrworld::e2(), cases: |t| t.pick(8_000, 80_000) },
+                Family { enumerate: None, variant: "", name: "E4-unpin-whose-collection-loop-goes-round-several-times", strategy: |_| ebrworld::e4(), cases: |t| t.pick(8_000, 80_000) },
                 Family { enumerate: None, variant: "", name: "ebr-exit", strategy: |t| ebrworld::free(ebrworld::EW_EXIT, 3, t.pick(16, 24), t.pick(8, 14)), cases: |t| t.pick(10_000, 100_000) },
                 Family { enumerate: None, variant: "", name: "private-collector", strategy: |_| ebrworld::private(ebrworld::EW_DEFAULT, 50), cases: |t| t.pick(10_000, 100_000) },
             ],
